@@ -87,9 +87,19 @@ func (x *Exec) freshErr(st *State, name string) Value {
 }
 
 func (x *Exec) nonNilErr(st *State, name string) Value {
-	v := x.freshErr(st, name)
+	v := x.newErr(st, name)
 	st.assume(mkNot(mkEq(v.S, "0")))
 	return v
+}
+
+// newErr: nil or an error value created by the callee (errors.New / Errorf
+// style): distinct from every error that existed at unit entry, in particular
+// from the package-level sentinels.
+func (x *Exec) newErr(st *State, name string) Value {
+	id := x.allocRef(st) // a fresh identity
+	c := x.d.fresh(name, sInt)
+	st.assume(mkOr(mkEq(c, "0"), mkEq(c, id)))
+	return Value{K: KIface, T: errT(), S: c}
 }
 
 func init() {
